@@ -466,6 +466,9 @@ ADVERSARIAL = [
     'é', 'naïve café\n', 'Ω≈ç√\n', '日本語\n', '\U0001F600 emoji\n', '- \U0001F600', '-é\n', 'é \n', 'ÿ', '\x80', '\xa0',
     'a\x0cb', 'a\x00b', 'a\x7fb', 'a\x0bb', '\x1b[0m',
     'x' * 5000, '-' + 'x' * 4999, 'ab ' * 1667, ('line\n' * 1000),
+    # characters that mean something to the text machinery the writer uses: str.format fields, % formats, regex replacement escapes
+    '{', '}', '{}', '{{', '}}', '{0}', '{signature:s}', '{hhdr}', '{cleartext:s}\n', '{"json": {"a": [1, 2]}}\n', '${var}', '-{x}\n', '%s', '%(a)s %d %%',
+    '\\1', '\\g<0>', 'a\\nb', '\\',
 ]
 
 
